@@ -291,8 +291,14 @@ Fixpoint install_all (b : backend) (pkgs : list pkg) (i : nat) (s : st)
   end.
 
 (* slices.DeleteFunc in InstallPackages *)
+(* installedFiles is looked up with hdr.Name: a directory header's name ends in
+   "/" (as tar writers and synthrepo emit it), the keys are names of regular
+   files, so a directory header is never dropped *)
 Definition prune (ifs : ifmap) (i : nat) (files : list hdr) : list hdr :=
-  filter (fun h => match if_get ifs (h_path h) with Some j => Nat.eqb j i | None => true end) files.
+  filter (fun h => match h_kind h with
+                   | KDir => true
+                   | _ => match if_get ifs (h_path h) with Some j => Nat.eqb j i | None => true end
+                   end) files.
 
 (* which headers sortTarHeaders hands on to the writer: a header below the top
    level needs a directory header of the same package for every ancestor; a
@@ -331,8 +337,8 @@ Definition install (b : backend) (pkgs : list pkg) (init : fsmap) : result :=
    in-memory overlay), on the flat map: a node is identified with its canonical
    path (no directory is reachable under two names except through links).
    [step_l] = [step] where it answers, [step_g] where it declines.  Still
-   declined: hard links on the directory backend whose target is reached through
-   a link (linkat does not follow), absolute targets on the directory backend
+   declined: hard links on the directory backend whose target NAME is a link
+   (linkat does not follow it), absolute targets on the directory backend
    (they resolve against the HOST root), a target that resolves to the root. *)
 
 (* filepath.Clean of a relative path, on components ([st] = stack, top first) *)
@@ -477,12 +483,20 @@ Definition step_link_g (b : backend) (s : st) (h : hdr) : step_res :=
           match node_at (s_fs s) t with
           | Some (NFile sm md ow dt) =>
               match b with
-              | StreamDir => if path_eqb t (h_link h) then
-                               match fs_get (s_fs s) loc with
-                               | Some _ => IErr EOther s
-                               | None => IOk (with_fs s (fs_set (s_fs s) loc (NFile sm md ow dt)), true)
-                               end
-                             else IErr EUnsupported s      (* linkat(2) links the symbolic link itself *)
+              | StreamDir =>
+                  (* linkat(2) does not follow a link in the LAST component of the target *)
+                  if match resolve_parent (s_fs s) (h_link h) with
+                     | Some qt => match fs_get (s_fs s) (qt ++ [base_of (h_link h)]) with
+                                  | Some (NSym _ _ _) => true
+                                  | _ => false
+                                  end
+                     | None => true
+                     end
+                  then IErr EUnsupported s
+                  else match fs_get (s_fs s) loc with
+                       | Some _ => IErr EOther s
+                       | None => IOk (with_fs s (fs_set (s_fs s) loc (NFile sm md ow dt)), true)
+                       end
               | _ => match fs_get (s_fs s) loc with
                      | Some _ => IErr EOther s
                      | None => IOk (with_fs s (fs_set (s_fs s) loc (NFile sm md ow dt)), true)
